@@ -227,10 +227,12 @@ class Program:
             if self.inlined:
                 _alpha.normalise_negated_tests(tree)
             _alpha.normalise_conditional_assignments(tree)
+        from .modset import ModSets
+        ms = ModSets(list(trees.values()))
         for name, tree in trees.items():
             if self._alpha_ref is not None:
                 _alpha.normalise_module(tree, name, self._alpha_ref, self.alpha_renames,
-                                        self._known_functions)
+                                        self._known_functions, ms)
             for node in ast.walk(tree):
                 for child in ast.iter_child_nodes(node):
                     child._parent = node
